@@ -52,6 +52,11 @@ Edge == <<                                        \* shapes on the three edges o
   \* point covered twice belongs to it; the probe grid has points inside the doubly covered regions
   G("MultiPolygon", <<<<Rect(0, 0, 6, 48)>>, <<Rect(2, 16, 8, 64)>>>>),
   G("MultiPolygon", <<<<Rect(0, 0, 8, 64)>>, <<Rect(2, 16, 6, 48)>>>>),
+  \* an island in a lake: a part with a hole and a part lying inside that hole, in both orders; and rings written unclosed
+  G("MultiPolygon", <<<<Rect(0, 0, 12, 64), Rect(2, 8, 10, 56)>>, <<Rect(4, 16, 8, 48)>>>>),
+  G("MultiPolygon", <<<<Rect(4, 16, 8, 48)>>, <<Rect(0, 0, 12, 64), Rect(2, 8, 10, 56)>>>>),
+  G("Polygon", <<<<<<2, 16>>, <<8, 16>>, <<8, 48>>, <<2, 48>>>>>>),
+  G("MultiPolygon", <<<<<<<<0, 0>>, <<4, 0>>, <<4, 32>>, <<0, 32>>>>, <<<<1, 8>>, <<3, 8>>, <<3, 24>>, <<1, 24>>>>>>>>),
   \* areal shapes one sub-tick wide: with the time buffer BT[7] = 4e6 sub-ticks they are 2.5e-7 of the buffer wide
   G("Polygon", <<Rect(8, 16, 9, 48)>>),
   G("MultiPolygon", <<<<Rect(8, 0, 9, 32)>>, <<Rect(12, 16, 16, 48)>>>>),
@@ -114,6 +119,18 @@ UnitsOf(gi, i, j) == IF AllUnits THEN 1..3 ELSE {((gi + i + 2 * j) % 3) + 1}    
 \* three types per combination (one of them always unsigned), the shapely kinds one; all nine types occur for every geometry
 TypesOf(gi, i, j) == IF Geoms[gi].type \in ClosedKinds THEN LET q == ((gi + i + j) % 3) + 1 IN {q, q + 3, q + 6}
                      ELSE {((2 * gi + 3 * i + j) % 9) + 1}
+\* tn = 9: the LARGER pair is numerically equal on the two axes (1024 sub-ticks * 0.5 s = 512 = 8 sub-ticks * 64 Hz at unit 1),
+\* the smaller pair (400 s, 448 Hz) is not; probes sit just inside the mitre corners of the smaller result
+Rectilinear(g) == g.type \in {"Polygon", "MultiPolygon"} /\
+    LET rs == IF g.type = "Polygon" THEN g.coordinates ELSE [q \in 1..1 |-> g.coordinates[1][1]] IN
+    /\ \A r \in DOMAIN rs : \A q \in 1..(Len(rs[r]) - 1) : rs[r][q][1] = rs[r][q + 1][1] \/ rs[r][q][2] = rs[r][q + 1][2]
+    /\ g.type = "MultiPolygon" => Len(g.coordinates) = 1
+    /\ Bounds(g, FMAXS)[4] < 1000 /\ Bounds(g, FMAXS)[3] < 100
+EqB1 == <<800, 7>>
+EqB2 == <<1024, 8>>
+CornerProbes(g) == LET o == Bounds(g, FMAXS) IN
+    <<<<o[3] + EqB1[1] - 1, o[4] + EqB1[2] - 1>>, <<o[3] + EqB1[1] - 2, o[4] + EqB1[2] - 2>>, <<o[3] + EqB1[1] - 40, o[4] + EqB1[2] - 1>>,
+      <<o[3] + EqB1[1] - 1, o[4] + EqB1[2]>>, <<o[3] + EqB1[1], o[4] + EqB1[2] - 1>>>>
 \* tiny buffers around zero (Buffer!TinyNames): each on the time axis with a positive frequency buffer, on the frequency
 \* axis with a positive time buffer, and on both; two runs per case
 TinyRuns == LET N == <<"-1e-9", "-1e-10", "-1e-12", "-5e-324", "-0.0">> IN
@@ -126,10 +143,12 @@ Descriptors == UNION {UNION {{[gi |-> gi, i |-> i, j |-> j, neg |-> 0, tn |-> 0,
                                  i \in TimeIdx(Geoms[gi]), j \in 1..NF(Geoms[gi])} : gi \in 1..Len(Geoms)}
           \cup {[gi |-> gi, i |-> 1, j |-> 1, neg |-> n, u |-> (n % 3) + 1, ty |-> <<1, 2, 5>>[((gi + n) % 3) + 1], tn |-> 0] : gi \in 1..Len(Geoms), n \in 1..3}
           \cup {[gi |-> gi, i |-> 1, j |-> 1, neg |-> 0, tn |-> q, u |-> (q % 3) + 1, ty |-> 2] : gi \in 1..Len(Geoms), q \in 1..8}
-B1(d) == IF d.tn > 0 THEN TinyOf(d, 1).b ELSE IF d.neg = 0 THEN <<BT[d.i], BF[d.j]>> ELSE NegPairs[d.neg][1]
-B2(d) == IF d.tn > 0 THEN TinyOf(d, 2).b ELSE IF d.neg = 0 THEN <<BT[UpT(Geoms[d.gi], d.i)], BF[UpF(d.j)]>> ELSE NegPairs[d.neg][2]
-Concrete(d) == [g |-> Geoms[d.gi], b1 |-> B1(d), b2 |-> B2(d), probes |-> Probes(Geoms[d.gi]), u |-> d.u,
-                e1 |-> IF d.tn > 0 THEN TinyOf(d, 1).e ELSE NoTiny, e2 |-> IF d.tn > 0 THEN TinyOf(d, 2).e ELSE NoTiny,
+          \cup {[gi |-> gi, i |-> 1, j |-> 1, neg |-> 0, tn |-> 9, u |-> 1, ty |-> 2] : gi \in {q \in 1..Len(Geoms) : Rectilinear(Geoms[q])}}
+B1(d) == IF d.tn = 9 THEN EqB1 ELSE IF d.tn > 0 THEN TinyOf(d, 1).b ELSE IF d.neg = 0 THEN <<BT[d.i], BF[d.j]>> ELSE NegPairs[d.neg][1]
+B2(d) == IF d.tn = 9 THEN EqB2 ELSE IF d.tn > 0 THEN TinyOf(d, 2).b ELSE IF d.neg = 0 THEN <<BT[UpT(Geoms[d.gi], d.i)], BF[UpF(d.j)]>> ELSE NegPairs[d.neg][2]
+Concrete(d) == [g |-> Geoms[d.gi], b1 |-> B1(d), b2 |-> B2(d), u |-> d.u,
+                probes |-> IF d.tn = 9 THEN Probes(Geoms[d.gi]) \o CornerProbes(Geoms[d.gi]) ELSE Probes(Geoms[d.gi]),
+                e1 |-> IF d.tn \in 1..8 THEN TinyOf(d, 1).e ELSE NoTiny, e2 |-> IF d.tn \in 1..8 THEN TinyOf(d, 2).e ELSE NoTiny,
                 t1 |-> ArgTypes(BufTypes[d.ty], B1(d), d.u), t2 |-> ArgTypes(BufTypes[d.ty], B2(d), d.u)]
 
 Init == /\ c \in {d \in Descriptors : (d.gi * 7 + d.i * 3 + d.j + d.neg) % GeomStride = 0}
@@ -201,6 +220,11 @@ LawTiny == (LawAt /\ c.gi = 1) =>
     /\ \A n \in TinyNames : \E q \in 1..15 : TinyRuns[q].e = <<"", n>>
     /\ \A n \in TinyNames : \E q \in 1..15 : TinyRuns[q].e = <<n, n>>
     /\ {IF r = 1 THEN 2 * t - 1 ELSE Min(2 * t, 15) : t \in 1..8, r \in 1..2} = 1..15
+\* the equal-buffer pair: equal as numbers of seconds and Hz at unit 1, the smaller pair not, the pair is comparable,
+\* and some geometry carries it
+LawEqualPair == (LawAt /\ c.gi = 1) =>
+    /\ EqB2[1] = EqB2[2] * HzPerSub * SubPerSec[1] /\ EqB1[1] # EqB1[2] * HzPerSub * SubPerSec[1]
+    /\ MonoComparable(EqB1, EqB2) /\ \E q \in 1..Len(Geoms) : Rectilinear(Geoms[q])
 LawFolded == (LawAt /\ c.gi = 1) =>
     /\ Cardinality({gi \in 1..Len(Geoms) : Folded(Geoms[gi])}) = 4
     /\ FoldedPath(<<<<5, 10>>, <<5, 30>>, <<5, 20>>, <<9, 20>>>>) /\ ~FoldedPath(<<<<5, 10>>, <<5, 30>>, <<5, 40>>, <<9, 20>>>>)
